@@ -382,12 +382,13 @@ Definition oracle_meaning (c : case) : Prop :=
   | CBuild l (Some b) dec => strictly_sorted [] (map fst l) = true /\ b = render l /\ dec = IOk (map fst l)
   | CSave l o1 o2 => o1 = o2 /\ forall b w, o1 = SOk b w ->
       strictly_sorted [] (map fst (kept_go None l)) = true /\ b = render (kept_go None l)
+  | CNoCrash crashed => crashed = false
   | _ => True
   end.
 
 Lemma check_C41_sound c : check_C41 c = true <-> oracle_meaning c.
 Proof.
-  destruct c; cbn [check_C41 oracle_meaning]; try tauto.
+  destruct c; cbn [check_C41 oracle_meaning]; try tauto; try (rewrite negb_true_iff; tauto).
   - rewrite andb_true_iff, dres_eqb_spec. tauto.
   - destruct (in_years ymd) eqn:E.
     + rewrite andb_true_iff, zt_eqb_spec. split.
